@@ -280,9 +280,12 @@ def rule_not_recording(ctx, E, prov):
                 src = prov.of_place(ewp, info["place"])
                 if any(o.kind == "param" and o.key == 2 and ".inner" in o.path for o in src):
                     some |= set(ewp.variant_edges(sb, ["Some"]))
-        calls = [b for b in ewp.calls(lambda t: t["callee"].startswith("fastrace::span::Span::") and not t["callee"].endswith("::noop"))
+        # (delegating to enter_with_parents is not a creation of its own: that function answers with a no-op span for an empty token,
+        # which is what the token obligation below and C02-R8 check)
+        calls = [b for b in ewp.calls(lambda t: t["callee"].startswith("fastrace::span::Span::") and not t["callee"].endswith("::noop")
+                                      and not t["callee"].endswith("::enter_with_parents"))
                  if not ewp.blocks[b]["cleanup"]]
-        ctx.check(bool(some) and ewp.guarded(calls, some), "R4", ewp.path, ewp.span,
+        ctx.check((bool(some) and ewp.guarded(calls, some)) or not calls, "R4", ewp.path, ewp.span,
                   "enter_with_parent derives a span only from a recording parent (inner = Some)", "",
                   "span creation reachable with a no-op parent", extra="parent")
     n = 0
